@@ -113,6 +113,22 @@ class Plain {
     fn new(self, items) { self.items = items; }
     fn iter(self) { return self.items.iter(); }
 }
+#[derive(Iter), constructor(new)]
+class FieldNext {}
+fn mk_fieldnext(n) {
+    // stepping is done by a per-instance closure kept in the field `next`; the class itself has no such method
+    var o = FieldNext.new();
+    var i = 0;
+    o.next = || { if i >= n { return StopIter.new(); } i = i + 1; return i * 3; };
+    return o;
+}
+fn mk_overnext(n) {
+    // the class has a next method, this instance overrides it with a field
+    var o = Count.new(n);
+    var k = 0;
+    o.next = || { if k >= n { return StopIter.new(); } k = k + 1; return [\"field\", k]; };
+    return o;
+}
 #[derive(Iter)]
 class Early {
     #[constructor]
@@ -123,9 +139,9 @@ class Early {
 
 ITERABLES = ["[1, 2, 3, 4]", "[]", "[\"a\"]", "(1, \"b\", nil)", "()", "0..4", "3..0", "2..2", "-2..1", "\"héy€\"", "\"\"", "\"😀a\"",
              "Count.new(3)", "Count.new(0)", "Resetting.new([5, 6, 7])", "Handing.new(2)", "Plain.new([8, 9])", "Early.new()",
-             "[1, 2, 3].iter()", "(4..7).iter()", "\"ab\".iter()", "(1, 2).iter()"]
+             "[1, 2, 3].iter()", "(4..7).iter()", "\"ab\".iter()", "(1, 2).iter()", "mk_fieldnext(3)", "mk_overnext(2)", "mk_fieldnext(0)"]
 CHAINABLE = ["[1, 2, 3, 4, 5]", "0..6", "5..0", "(1, 2, 3)", "\"abc\"", "Count.new(4)", "Resetting.new([1, 2, 3])", "Handing.new(3)",
-             "Early.new()", "[]"]
+             "Early.new()", "[]", "mk_fieldnext(4)", "mk_overnext(3)"]
 MAPS = ["|v| v", "|v| [v]", "|v| \"<${v}>\"", "|v| (v, v)", "|v| v == 2"]
 MAPS_NUM = ["|v| v * 2", "|v| v + 1", "|v| -v"]
 FILTERS = ["|v| true", "|v| false", "|v| v != 2", "|v| v == v"]
